@@ -54,4 +54,3 @@ func (p emptyInterfaceProxy) Format(f fmt.State, verb rune) {
 	}
 	fmt.Fprintf(f, fmt.FormatString(f, verb), p.value.Interface())
 }
-
